@@ -274,6 +274,33 @@ fn raw_bodies(rng: &mut Rng, valid: &str) -> (Vec<u8>, &'static str) {
     }
 }
 
+/// arbitrary reference text: data-URL look-alikes, percent escapes, multi-byte characters
+fn fuzz_url(rng: &mut Rng) -> String {
+    let heads = [
+        "data:", "data:application/json", "data:application/json;base64", "data:application/json;charset=utf-8",
+        "data:application/json;charset=utf-8;base64", "data:text/plain", "DATA:application/json;base64", "", "http://h/",
+        "file://", "./", "//", "data:application/json;base64,eyJ2ZXJzaW9uIjozfQ", "blob:", "data:;base64",
+    ];
+    let alphabet: Vec<char> = "abcXYZ019+/=%%%,,;;:.?#&_-~ \t\\'\"{}[]()<>|^`@!$*\u{e9}\u{4f60}\u{1F600}\u{0}".chars().collect();
+    let mut s = String::from(*rng.pick(&heads));
+    if rng.chance(3, 4) {
+        s.push(*rng.pick(&[',', ';', ',', '/']));
+    }
+    for _ in 0..rng.range(0, 40) {
+        s.push(*rng.pick(&alphabet));
+    }
+    match rng.below(6) {
+        0 => s.push('%'),
+        1 => s.push_str("%4"),
+        2 => s.push_str("%\u{e9}"),
+        3 => s.push_str("%7\u{4f60}"),
+        4 => s.push_str("%zz"),
+        _ => {}
+    }
+    // the comment ends at the line break: keep it on one line
+    s.replace(['\n', '\r', '\u{2028}', '\u{2029}'], " ")
+}
+
 fn gen_source(rng: &mut Rng, big: bool) -> (String, &'static str, bool) {
     // returns (text, kind, is_valid_program)
     let mut o = GenOpts::small();
@@ -416,7 +443,8 @@ pub fn gen_case(rng: &mut Rng, tier: Tier, for_sweep: bool) -> Case13 {
                 "a.js.map?x=1#frag",
                 "\\\\server\\share\\a.map",
             ];
-            source.push_str(&format!("\n//# sourceMappingURL={}\n", rng.pick(&variants)));
+            let url = if rng.chance(1, 2) { rng.pick(&variants).to_string() } else { fuzz_url(rng) };
+            source.push_str(&format!("\n//# sourceMappingURL={}\n", url));
             ref_kind = "inline-odd-url".into();
         }
         5 => {
@@ -739,8 +767,8 @@ impl Engine for C13 {
     fn chunk(&self) -> u64 {
         50
     }
-    fn chunk_timeout(&self) -> std::time::Duration {
-        std::time::Duration::from_secs(240)
+    fn run_timeout(&self) -> std::time::Duration {
+        std::time::Duration::from_secs(30)
     }
     fn plan(&self, seed: u64, run: u64, tier: Tier) -> Value {
         serde_json::to_value(plan13(seed, run, tier)).unwrap()
@@ -794,9 +822,14 @@ impl Engine for C13 {
             let mut viol = r0.viol;
             let mut events = 1u64;
             let mut rng = Rng::new(plan.sweep_seed);
+            let progress_file = std::env::var("VERIF_PROGRESS_FILE").ok();
             let mut try_one = |fp: FaultPlan, label: String, rep: &mut RunReport, viol: &mut Vec<Violation>, log: &mut Vec<String>| {
                 let mut c = base.clone();
                 c.faults = fp;
+                if let Some(pf) = &progress_file {
+                    let sub = Plan13 { mode: "single".into(), case: c.clone(), sweep_chunk: 0, sweep_seed: 0 };
+                    let _ = std::fs::write(pf, serde_json::to_string(&sub).unwrap());
+                }
                 let r = run_case(&c);
                 account(rep, &c, &r, true);
                 log.push(format!("  {} -> {} {:016x} reads={} fired={:?}", label, r.outcome.class(), r.outcome.digest(), r.stats.read_calls, r.stats.faults_fired));
@@ -989,7 +1022,7 @@ impl Engine for C13 {
     fn assumptions(&self) -> Vec<String> {
         vec![
             "consecutive EINTR are capped at 8 so that faults stop; bounded liveness is stated in reader steps (read calls <= bytes served + faults + 16)".into(),
-            "the wall-clock watchdog (240 s per 50-run chunk) is a backstop only; a hit must reproduce in a fresh process".into(),
+            "the wall-clock watchdog (30 s without progress of a worker) is a backstop only; a hit must reproduce in a fresh process".into(),
             "pure nesting-depth exhaustion is out of scope (nesting capped at 30); allocation failure is not injected (it aborts)".into(),
             "input text is valid UTF-8 (the API takes a Rust String / JS string)".into(),
         ]
